@@ -1,6 +1,7 @@
 import S2T.Lemmas.SerialMore
 import S2T.Gen.Schema
 import S2T.Props.C05_History
+import S2T.Props.C05_Streams
 /-!
 # C05 — `to_json` is JSON-serialisable and `from_json` restores the same object
 
@@ -150,6 +151,52 @@ theorem C05_binary_fields (c : Str) (fs : List (Str × PyVal))
       rw [canonFields_eq]
       exact List.mem_map.mpr ⟨(n, .bytesio bs), hm, by simp [canon]⟩
 
+/-- **image / attachment streams of the rebuilt object, in every reachable process state and after any later
+history**: in ANY heap state `st` (whatever was restored, read, closed before), `from_json(to_json(x))` hands out
+one new stream per `io.BytesIO` leaf of `canon x`; after ANY history `mid` of further `from_json` calls and of reads /
+closes / rewinds of other streams (of this or of any other restored object), reading the `i`-th one returns its whole
+payload.  (Heap: `S2T/Model/SerialHeap.lean`; tie of the decoder to the source: `Streams.gen_alloc_sites_ok`,
+`History.gen_state_cells` + the consumption histories of the harness.) -/
+theorem C05_restored_streams_any_history (hS : SchemaOk S = true) (c : Str) (fs : List (Str × PyVal))
+    (h : WellTyped S .any (.obj c fs) = true) (st : S2T.SerialHeap.State) (i : Nat) (mid : List S2T.SerialHeap.HOp)
+    (hi : i < (S2T.SerialHeap.leaves (canon S .any (.obj c fs))).length)
+    (hmid : ∀ op ∈ mid, S2T.SerialHeap.touches (st.heap.length + i) op = false) :
+    S2T.SerialHeap.restoredLeaves S (serializeExtraction true (.obj c fs)) = S2T.SerialHeap.leaves (canon S .any (.obj c fs))
+    ∧ (S2T.SerialHeap.heapStep
+        (S2T.SerialHeap.hrun .fresh (S2T.SerialHeap.hstep .fresh st
+          (.restore (S2T.SerialHeap.restoredLeaves S (serializeExtraction true (.obj c fs))))) mid).heap
+        (st.heap.length + i) .read).1 = .ok (S2T.SerialHeap.leaves (canon S .any (.obj c fs)))[i] := by
+  obtain ⟨fs', h1, _, _, h4⟩ := C05_roundtrip_partial hS c fs h
+  have hl : S2T.SerialHeap.restoredLeaves S (serializeExtraction true (.obj c fs))
+      = S2T.SerialHeap.leaves (canon S .any (.obj c fs)) := by
+    simp [S2T.SerialHeap.restoredLeaves, h1, h4]
+  rw [hl]
+  exact ⟨rfl, (Streams.C05_read_after_any_history st _ i hi mid hmid).1⟩
+
+private theorem mem_leavesFields (n : Str) (bs : List Nat) : ∀ fs : List (Str × PyVal),
+    (n, PyVal.bytesio bs) ∈ fs → bs ∈ S2T.SerialHeap.leavesFields fs := by
+  intro fs
+  induction fs with
+  | nil => intro hm; cases hm
+  | cons f fs ih =>
+    intro hm
+    obtain ⟨m, v⟩ := f
+    simp only [S2T.SerialHeap.leavesFields, List.mem_append]
+    rcases List.mem_cons.mp hm with he | hm
+    · left
+      have : v = PyVal.bytesio bs := by cases he; rfl
+      subst this
+      simp [S2T.SerialHeap.leaves]
+    · exact Or.inr (ih hm)
+
+/-- … and every `io.BytesIO` field of `x` is one of those streams (the hypothesis `hi` above is satisfiable) -/
+theorem C05_stream_fields (c : Str) (fs : List (Str × PyVal)) (h : WellTyped S .any (.obj c fs) = true) (n : Str) (bs : List Nat)
+    (hm : (n, PyVal.bytesio bs) ∈ fs) : bs ∈ S2T.SerialHeap.leaves (canon S .any (.obj c fs)) := by
+  obtain ⟨fs', hc, hm'⟩ := (C05_binary_fields c fs h n bs).2 hm
+  rw [hc]
+  simp only [S2T.SerialHeap.leaves]
+  exact mem_leavesFields n bs fs' hm'
+
 /-- the serialiser is idempotent: what `to_json` returns is plain data -/
 theorem C05_to_json_plain (b : Bool) (v : PyVal) : ser b (ser true v) = ser true v := ser_ser b v
 
@@ -227,6 +274,48 @@ theorem C05_cli_units_many (b : Bool) (units : PyVal → List PyVal) (rs : List 
   | [], _ => rfl
   | [_], h => simp at h
   | _ :: _ :: _, _ => rfl
+
+/-- without `--binary` the `--json` payload is the payload of the results with exactly their binary leaves set to
+`None` — for one result and for several -/
+theorem C05_cli_nobinary (rs : List PyVal) : cliResults false rs = cliResults true (rs.map dropBinary) := by
+  match rs with
+  | [] => rfl
+  | [r] => simp [cliResults, C05_nobinary]
+  | r :: r' :: rs => simp [cliResults, C05_nobinary, Function.comp_def]
+
+/-- … and so is the `--json-unit` payload (units of every result) -/
+theorem C05_cli_units_nobinary (units : PyVal → List PyVal) (rs : List PyVal) :
+    cliUnitResults false units rs = cliUnitResults true (fun r => (units r).map dropBinary) rs := by
+  match rs with
+  | [] => rfl
+  | [r] => simp [cliUnitResults, C05_nobinary, Function.comp_def]
+  | r :: r' :: rs => simp [cliUnitResults, C05_nobinary, Function.comp_def]
+
+/-- every flag combination of `cli.main`: the payload with `--binary` absent is the payload with `--binary` of the
+binary-free results / units -/
+theorem C05_cli_payload_nobinary (jsonUnit : Bool) (units : PyVal → List PyVal) (rs : List PyVal) :
+    cliPayload jsonUnit false units rs = cliPayload jsonUnit true (fun r => (units r).map dropBinary) (if jsonUnit then rs else rs.map dropBinary) := by
+  cases jsonUnit
+  · simp [cliPayload, C05_cli_nobinary]
+  · simp [cliPayload, C05_cli_units_nobinary]
+
+/-- the model is the plumbing `passed` -/
+theorem C05_cli_plumbing (b : Bool) (rs : List PyVal) : cliResultsWith .passed b rs = cliResults b rs := by
+  match rs with
+  | [] => rfl
+  | [r] => rfl
+  | r :: r' :: rs => rfl
+
+/-- why `Streams.gen_flag_sites_ok` is an obligation (the shape of seeded change C05/flag dropped for several results): a
+several-results branch that mentions the serialiser without the keyword prints the payloads although `--binary` is
+absent — for two results, not for one -/
+theorem C05_cex_cli_flag_dropped :
+    (render (cliResultsWith .droppedForSeveral false [emailWithAttachment, emailWithAttachment])
+        == render (cliResults false [emailWithAttachment, emailWithAttachment])) = false
+    ∧ cliResultsWith .droppedForSeveral false [emailWithAttachment] = cliResults false [emailWithAttachment]
+    ∧ (render (cliResultsWith .droppedForSeveral false [emailWithAttachment, emailWithAttachment])
+        == render (cliResults true [emailWithAttachment, emailWithAttachment])) = true := by
+  refine ⟨by decide +kernel, rfl, by decide +kernel⟩
 
 /-! ## spreadsheet cells -/
 
